@@ -22,6 +22,7 @@ from .. import common, tlc, vsched
 from ..vsched import vqueue, vtime
 
 SERIALS = ['A1B2C3D4E5', '0123456789', 'FFFFFFFF00', 'E7E7E7E7E7', '00000000AB']
+IDENT = list(range(len(SERIALS)))
 RATES = ['250K', '1M', '2M']
 DEFAULT_ADDR = [0xE7] * 5
 KNOWN = ['radio', 'usb', 'serial', 'udp', 'prrt', 'tcp']
@@ -72,7 +73,7 @@ def render(u):
         elif u['dk'] == 'num':
             out = 'radio://%d' % u['dn']
         else:
-            out = 'radio://' + SERIALS[u['dn'] - 1]
+            out = 'radio://' + SERIALS[ENV.get('order', IDENT)[u['dn'] - 1]]     # serial of the dn-th attached dongle
         if u['nf'] >= 1:
             out += '/' + ('abc' if u['wf'] == 'chan_alpha' else '%d' % u['chan'])
         if u['nf'] >= 2:
@@ -121,9 +122,9 @@ class FakeDongle:
     manufacturer = 'Bitcraze AB'
     bcdDevice = 0x0099
 
-    def __init__(self, idx):
+    def __init__(self, idx, serial_idx=None):
         self.idx = idx
-        self.serial_number = SERIALS[idx]
+        self.serial_number = SERIALS[idx if serial_idx is None else serial_idx]
         self.chan = self.rate = self.addr = None
         self.last_acked = False
 
@@ -308,7 +309,10 @@ def set_env(env):
     import cflib.crtp.serialdriver as serd
     import cflib.crtp.prrtdriver as prd
     ENV['env'] = env
-    ENV['dongles'] = [FakeDongle(i) for i in range(env['nd'])]
+    # which physical dongle sits at which position differs from session to session (a dongle keeps its
+    # serial number, not its enumeration index): ENV['order'][position] = index into SERIALS
+    order = ENV.get('order', IDENT)
+    ENV['dongles'] = [FakeDongle(i, order[i]) for i in range(env['nd'])]
     ENV['cfusb'] = [FakeCfUsb() for _ in range(env['nusb'])]
     if env['pyserial']:
         serd.list_ports = FakeListPorts
@@ -556,14 +560,35 @@ def install_mutant(name):
 def execute(session, mutant=None):
     """session = {env, ops:[{e, u | sa, resp}]} -> trace dict (id is set by the caller)."""
     install()
+    import zlib
+    k = session.get('order')
+    if k is None:
+        k = zlib.crc32(repr((session['env'], len(session['ops']))).encode()) % len(SERIALS)
+    ENV['order'] = IDENT[k:] + IDENT[:k]
     undo = install_mutant(mutant) if mutant else None
     try:
         classes = set_env(session['env'])
         evs = [run_event(o) for o in session['ops']]
+        # replug: the dongles are enumerated in another order (a dongle keeps its serial number, not
+        # its index) and the serial-number URIs seen so far are used again -- the SAME strings now
+        # name other indices.  Anything remembered from the first parse shows here.
+        ser_ops = [o for o in session['ops'] if o['e'] in ('parse', 'lookup') and o.get('u', {}).get('scheme') == 'radio'
+                   and o['u'].get('dk') == 'serial' and o['u'].get('wf') == 'ok'
+                   and 1 <= o['u']['dn'] <= session['env']['nd']][:6]
+        if ser_ops and session.get('replug', True):
+            order1 = ENV['order']
+            order2 = order1[1:] + order1[:1]
+            ENV['order'] = order2
+            set_env(session['env'])
+            for o in ser_ops:
+                pos = order2.index(order1[o['u']['dn'] - 1])
+                if pos < session['env']['nd']:
+                    evs.append(run_event(dict(o, u=dict(o['u'], dn=pos + 1))))
     finally:
         if undo:
             undo()
-    return {'env': session['env'], 'classes': classes, 'ev': evs}
+    return {'env': session['env'], 'classes': classes, 'ev': evs,
+            'session': {k: v for k, v in session.items() if k in ('env', 'ops', 'order', 'replug')}}
 
 
 def _exec_job(job):
@@ -870,12 +895,16 @@ def report_violations(out, verdicts):
     """Every failing event of every rejected trace; per signature the smallest witness is re-executed on its own
     (that single-operation session is the replay) and must be rejected again."""
     by_sig = {}
+    whole_session = {}
     total = 0
     for v in verdicts:
         for (idx, clause) in v.allbad:
             total += 1
             ev = v.trace['ev'][idx - 1]
             sig = signature(ev, clause)
+            if v.trace.get('session') is not None and (sig not in whole_session or
+                                                       len(v.trace['session']['ops']) < len(whole_session[sig]['ops'])):
+                whole_session[sig] = v.trace['session']
             cur = by_sig.get(sig)
             if cur is None or _size(ev) < _size(cur[1]):
                 by_sig[sig] = (v.trace['env'], ev, clause, (cur[3] if cur else 0) + 1)
@@ -889,11 +918,21 @@ def report_violations(out, verdicts):
     for sig, sess, v in zip(sigs, sessions, again):
         env, ev, clause, n = by_sig[sig]
         if v.clause == 'ok':
-            raise common.MachineryError('violation %s did not reproduce in isolation: %r' % (sig, sess))
-        e2 = v.trace['ev'][0]
+            # not a property of that single operation: it may depend on what the process did before
+            # (e.g. something remembered from an earlier parse).  The whole recorded session, run
+            # again in a fresh process, must then show it; otherwise the harness itself is suspect.
+            whole = whole_session.get(sig)
+            v2 = judge(out, common.pmap(_exec_job, [(whole, None)] * 4, init=install, nproc=1)[:1], 'whole-session witness',
+                       count=False)[0] if whole else None
+            if v2 is None or v2.clause == 'ok':
+                raise common.MachineryError('violation %s did not reproduce in isolation: %r' % (sig, sess))
+            sess, v = whole, v2
+            sig = sig + '/needs-history'
+        e2 = v.trace['ev'][v.allbad[0][0] - 1] if v.allbad else v.trace['ev'][0]
         detail = {'uri': render(e2['u']) if 'u' in e2 else None, 'occurrences_this_run': n,
                   'event': {k: x for k, x in e2.items() if k != 'found'}, 'env': env, 'classes': v.trace['classes']}
-        out.violation(signature(e2, v.clause), v.clause, detail, {'session': sess})
+        out.violation(signature(e2, v.clause) + ('/needs-history' if sig.endswith('/needs-history') else ''),
+                      v.clause, detail, {'session': sess})
     return total
 
 
@@ -1069,4 +1108,4 @@ def mutant_probe_sessions():
             ops.append({'e': 'open', 'u': u})
     ops.append({'e': 'scan', 'sa': [0, 0, 0, 0, 1], 'resp': [{'chan': 80, 'rate': 2, 'addr': [0, 0, 0, 0, 1]}]})
     ops.append({'e': 'scan', 'sa': [], 'resp': [{'chan': 10, 'rate': 0, 'addr': list(DEFAULT_ADDR)}]})
-    return [{'env': env, 'ops': [o]} for o in ops]
+    return [{'env': env, 'ops': [o], 'order': 0, 'replug': False} for o in ops]
